@@ -158,7 +158,7 @@ fn c03_4b_pending_start_time() { run_frozen(0) }
 #[kani::unwind(8)]
 fn c03_4c_paused() { run_frozen(1) }
 
-// @ob id=C03.4d strength=bounded tier=quick timeout=1800 bound="as C03.4c" fn=sound/static_sound/sound.rs::<StaticSound as Sound>::process
+// @ob id=C03.4d strength=bounded tier=thorough timeout=3600 bound="as C03.4c" fn=sound/static_sound/sound.rs::<StaticSound as Sound>::process
 // @req paused, then resume_at(Delayed 10 s)
 // @ens WaitingToResume: exact silence, frozen position
 #[kani::proof]
